@@ -41,7 +41,7 @@ func dialTLSPeer(k *kernel.Kernel, address string) (*peer, error) {
 	type socker interface{ SimSock() *kernel.Sock }
 	p := &peer{k: k, nconn: c, sock: c.(socker).SimSock()}
 	p.local = p.sock.Local.String()
-	p.tconn = stls.Client(c, &stls.Config{InsecureSkipVerify: true, ServerName: "sim"})
+	p.tconn = stls.Client(newPumpConn(c), &stls.Config{InsecureSkipVerify: true, ServerName: "sim"})
 	if err := p.tconn.Handshake(); err != nil {
 		c.Close()
 		return nil, err
@@ -111,3 +111,51 @@ func (p *peer) wasReset() bool { return p.sock.WasReset() }
 
 // reset aborts the connection underneath whatever protocol runs on it.
 func (p *peer) reset() { p.sock.Reset() }
+
+
+// pumpConn is the connection handed to the crypto/tls client. crypto/tls is not transformed:
+// its mutexes are real ones. A goroutine of the simulation must therefore never be parked
+// while it holds one of them, or the next goroutine that wants it blocks for real and the
+// whole (single-threaded) simulation with it. Reads are fine (only the reader ever takes the
+// input lock), but a Write that waited for socket space under the output lock would block the
+// reader when it has to send an alert. So Write only queues, without a scheduling point, and a
+// goroutine of its own moves the bytes into the simulated socket.
+type pumpConn struct {
+	net.Conn
+	out    []byte
+	closed bool
+	failed bool
+}
+
+func newPumpConn(c net.Conn) *pumpConn {
+	pc := &pumpConn{Conn: c}
+	simrt.GoNamed("tls-peer-pump", func() {
+		simrt.MarkDaemon()
+		for {
+			simrt.WaitUntil("pump-idle", func() bool { return len(pc.out) > 0 || pc.closed })
+			if len(pc.out) == 0 {
+				return
+			}
+			b := pc.out
+			pc.out = nil
+			if _, err := c.Write(b); err != nil {
+				pc.failed = true
+				return
+			}
+		}
+	})
+	return pc
+}
+
+func (pc *pumpConn) Write(b []byte) (int, error) {
+	if pc.failed || pc.closed {
+		return 0, errors.New("pump: connection is gone")
+	}
+	pc.out = append(pc.out, b...)
+	return len(b), nil
+}
+
+func (pc *pumpConn) Close() error {
+	pc.closed = true
+	return pc.Conn.Close()
+}
